@@ -568,6 +568,13 @@ func (c *Ctx) InterchangeInverse(prop string) {
 							}
 						}
 					}
+					// strconv.FormatInt(record.f, 10) is the same decimal rendering as Sprintf("%d", record.f)
+					if call, ok := st.Val.(*ssa.Call); ok && call.Call.StaticCallee() != nil && call.Call.StaticCallee().String() == "strconv.FormatInt" && len(call.Call.Args) == 2 {
+						if _, f := isSPFieldLoad(an.StripConv(call.Call.Args[0])); f != "" && an.IsConstInt(call.Call.Args[1], 10) {
+							exp[owner.Obj().Name()+"."+fieldNameOf(fa)] = f + `:"%d"`
+							expFn = fn
+						}
+					}
 				}
 				if obj, fld, st2 := spFieldStore(ins); st2 != nil && obj != nil {
 					if jf, base := importSourceOf(st2.Val, nil, 0); jf != "" {
